@@ -74,3 +74,5 @@ spec fn tail_ex(old_d: Seq<Diagnostic>, new_d: Seq<Diagnostic>, xs: Seq<EX>) -> 
 spec fn plain_before_tail(old_d: Seq<Diagnostic>, new_d: Seq<Diagnostic>, n: int) -> bool {
     forall |i: int| old_d.len() <= i < new_d.len() - n ==> (#[trigger] new_d[i]).related_infos@.len() == 0
 }
+
+spec fn all_arity_ok(ts: Seq<ast::Type>) -> bool { forall |i: int| 0 <= i < ts.len() ==> arity_ok(#[trigger] ts[i]) }
